@@ -3,7 +3,8 @@ import re
 
 from .core import RuleResult, Finding
 from .lib_errdisc import run_errdisc
-from .tyutil import TYPARAM
+from .tyutil import TYPARAM, result_parts
+from .core import op_local
 
 PROPERTY = "C12"
 TECHNIQUE = "ERRDISC: type-directed error-discipline analysis over MIR call sites (def-use forward slice)"
@@ -15,9 +16,11 @@ EXPLANATION = (
     "of unwrap/expect/ok/is_err/unwrap_or*/map_or*, never dead, and no closure receiving such an error diverges on "
     "all paths. Results over concrete in-memory sinks (E = Infallible) are exempt by type. This is a necessary "
     "condition of 'the write call returns that error - it does not panic' for every fault position k, because "
-    "every k lands on one of these call sites. The prefix clause (bits accepted before the failure are a prefix) is "
-    "NOT decided.")
-NOT_DECIDED = "prefix clause; behaviour of user sinks; implicit panics (indexing/arithmetic) on the write path"
+    "every k lands on one of these call sites. PREFIX: the first consumer of each such Result is `?`, the return place "
+    "or map_err leading there, never Result::and/or/and_then..., so no sink operation is issued after a failed one "
+    "(the structural half of the prefix clause; that the scratch sinks are empty when a write starts is C10's RESET).")
+NOT_DECIDED = ("that the bits forwarded before the failure are the right ones (C08/C02 decide the layouts); behaviour of user "
+               "sinks; implicit panics (indexing/arithmetic) on the write path")
 ASSUMPTIONS = ["external sink failure is recognisable by type: the error type mentions a type parameter bounded by "
                "BitSink (checked: the two in-memory sinks have Error = Infallible)"]
 
@@ -38,6 +41,82 @@ def is_external(err_ty, body):
     return False
 
 
+SHORT_OK = {"map_err"}
+
+
+def rule_prefix(facts):
+    """PREFIX: a sink error ends the write at once.  The first consumer of every Result<_, sink error> is `?`
+    (Try::branch), the function's return place, or map_err leading to one of those; never a combinator that lets the
+    function go on issuing sink operations (Result::and / or / and_then / ...)."""
+    rr = RuleResult("PREFIX/short-circuit", "after a sink operation failed no further sink operation is issued: the "
+                    "error is returned through `?` / the tail expression at once")
+    for body in facts.body_list:
+        ords = {}
+        for bi, t in body.calls():
+            rp = result_parts(t.get("dty"))
+            if rp is None or not is_external(rp[1], body):
+                continue
+            fn = t.get("fn")
+            callee = fn["def"] if fn else "<closure call>"
+            if fn and fn["def"].startswith("std::result::Result::<T, E>::") and fn["name"] in SHORT_OK:
+                continue            # judged at the producer
+            if fn and fn["def"] in ("std::ops::FromResidual::from_residual",):
+                continue
+            where = body.loc(bi, "term")
+            ords[callee] = ords.get(callee, 0) + 1
+            if t["dst"]["p"]:
+                continue
+            # first consumers through copies/moves and map_err
+            work = [t["dst"]["l"]]
+            seen = set()
+            bad = []
+            good = 0
+            while work:
+                l = work.pop()
+                if l in seen:
+                    continue
+                seen.add(l)
+                if l == 0:
+                    good += 1
+                    continue
+                for (ub, us) in body.uses_of_local(l):
+                    if (ub, us) == (bi, "term"):
+                        continue
+                    if us == "term":
+                        ut = body.blocks[ub]["term"]
+                        if ut["k"] == "call":
+                            uf = ut.get("fn") or {}
+                            if uf.get("def") == "std::ops::Try::branch":
+                                good += 1
+                            elif uf.get("def", "").startswith("std::result::Result::<T, E>::") and uf.get("name") in SHORT_OK:
+                                if not ut["dst"]["p"]:
+                                    work.append(ut["dst"]["l"])
+                            elif uf.get("def", "").startswith("std::result::Result::<T, E>::"):
+                                bad.append((uf.get("name"), body.loc(ub, "term")))
+                            else:
+                                good += 1          # handed to another function: that function's own obligation
+                        elif ut["k"] in ("ret", "switch"):
+                            good += 1
+                        continue
+                    s2 = body.blocks[ub]["stmts"][us]
+                    if s2["k"] == "assign" and s2["rv"]["k"] in ("use", "cast", "agg", "ref"):
+                        work.append(s2["dst"]["l"])
+                    elif s2["k"] == "assign" and s2["rv"]["k"] == "discr":
+                        good += 1                  # manual match: ERRDISC checks that the Err arm returns
+            sample = {"function": body.id, "site": where, "callee": callee}
+            if bad:
+                rr.fail(Finding("PREFIX/short-circuit", body.id, "%s->%s" % (callee, "+".join(sorted(set(b[0] for b in bad)))),
+                                0, where,
+                                "the Result<_, %s> of %s at %s is combined with Result::%s (%s) instead of being returned at "
+                                "once: the function keeps issuing sink operations after one of them failed, so the bits the "
+                                "sink accepted are no longer a prefix of the correct bitstream"
+                                % (rp[1], callee, where, bad[0][0], bad[0][1])), dict(sample, verdict="FAIL"))
+            else:
+                rr.ok(dict(sample, verdict="ok"))
+    rr.require_floor(70, "sink-error producing call sites")
+    return rr
+
+
 def run(facts, tier, ctx):
     rr = run_errdisc(facts, "ERRDISC/sink", "no Result<_, S::Error | OutputError<S>> of a caller-supplied sink is "
                      "unwrapped, swallowed, discarded or turned into a panic", is_external)
@@ -56,4 +135,4 @@ def run(facts, tier, ctx):
                              "crate-local sink %s has Error = %s; a fallible concrete sink must be added to the "
                              "external set" % (imp["self"], et)))
     inf.require_floor(2, "BitSink impls in the crate")
-    return [rr, inf]
+    return [rr, inf, rule_prefix(facts)]
